@@ -115,7 +115,8 @@ AlignReason(e) ==
   IF ~DefinedFor(T.m, e.a, e.b) THEN                         \* a pair is missing: Get panics (documented) -
        (IF ~e.panic THEN "out-of-domain"                     \* a violation only for the shipped matrices (C09)
         ELSE IF Mode = "C09" /\ T.kind # "seeded" THEN "panic" ELSE "ok")
-  ELSE IF e.op = "local" /\ (~T.nonpos \/ T.open > 0) THEN "out-of-domain"
+  \* Local: C08 and C10 speak of non-positive gap scores; C09 (zero gap-open) of any matrix
+  ELSE IF e.op = "local" /\ Mode # "C09" /\ (~T.nonpos \/ T.open > 0) THEN "out-of-domain"
   ELSE CASE Mode = "C08" -> C08R(e, T)
          [] Mode = "C09" -> C09R(e, T)
          [] Mode = "C10" -> C10R(e, T)
